@@ -52,13 +52,14 @@ var machImports = map[string]string{
 	"sync":                  "verif/simsync",
 	"golang.org/x/sys/unix": "verif/simunix",
 	"syscall":               "verif/simunix",
+	"time":                  "verif/simtime",
 }
 
 // imports that would let the code under test reach the kernel around the seam
-var machForbid = []string{"os", "io/ioutil", "os/exec", "net", "time"}
+var machForbid = []string{"os", "io/ioutil", "os/exec", "net"}
 
 func machRewrites() []RewriteSpec {
-	opt := rewrite.Options{Imports: machImports, Yields: true, GoStmt: true, Copy: true, MapRange: true, Forbid: machForbid}
+	opt := rewrite.Options{Imports: machImports, Yields: true, GoStmt: true, Copy: true, MapRange: true, Channels: true, Forbid: machForbid}
 	return []RewriteSpec{
 		{Dir: "machine/disk", Opt: opt},
 		{Dir: "machine/filesys", Opt: opt},
@@ -83,7 +84,7 @@ var trImports = map[string]string{
 }
 
 func trRewrites() []RewriteSpec {
-	opt := rewrite.Options{Imports: trImports, Yields: true, FuncEntryOnly: true, GoStmt: true, MapRange: true}
+	opt := rewrite.Options{Imports: trImports, Yields: true, FuncEntryOnly: true, GoStmt: true, MapRange: true, Channels: true}
 	mainOpt := opt
 	mainOpt.WrapMain = true
 	return []RewriteSpec{
